@@ -137,3 +137,78 @@ def check_accessors(ctx, lib, rule):
                     detail.append(f"{k}: {fmt_terms(r)}")
         ctx.check(ok_all, rule, "get_type", "get_type maps each Variable kind to the like-named JmespathType" + (f" — {detail}" if detail else ""), b.span)
     return n
+
+
+KIND_VIEW = {v: k for k, v in VIEW_KIND.items()}
+
+
+def pair_walker(body, lib, k1, k2):
+    """Walker for a binary operation on two Variables (`self` = param 1 of kind k1, `other` = param 2 of kind k2),
+    whatever way the kinds are inspected: the discriminants themselves (`match (self, other)`), get_type() comparisons,
+    accessors (`as_x()` case analysis / is_some), predicates (`is_x()`)."""
+    kinds = {1: k1, 2: k2}
+
+    def param_of(t):
+        return t[1] if t[0] == "param" and t[1] in kinds else None
+
+    def atom(t):
+        if t[0] == "discr":
+            x = t[1]
+            p = param_of(x)
+            if p:
+                return kinds[p]
+            if x[0] == "call" and x[1] == V + "get_type" and len(x[2]) == 1:
+                ps = {param_of(y) for y in x[2][0]}
+                if len(ps) == 1 and None not in ps:
+                    return TYPE_OF[kinds[next(iter(ps))]]
+            if x[0] == "view" and param_of(x[2]) and x[1] in VIEW_KIND:
+                return "Some" if VIEW_KIND[x[1]] == kinds[param_of(x[2])] else "None"
+            # a number's payload as f64 always exists (serde_json without arbitrary_precision)
+            if x[0] == "call" and x[1] == "serde_json::Number::as_f64":
+                return "Some"
+        return None
+
+    def call(t, argvals):
+        name = t[1]
+        if name in ("std::cmp::PartialEq::ne", "std::cmp::PartialEq::eq") and len(t[2]) == 2 and \
+                all(x[0] == "call" and x[1] == V + "get_type" for a in t[2] for x in a):
+            ps = []
+            for a in t[2]:
+                pp = {param_of(y) for x in a for y in x[2][0]}
+                if len(pp) != 1 or None in pp:
+                    return None
+                ps.append(next(iter(pp)))
+            same = int(kinds[ps[0]] == kinds[ps[1]])
+            return same if name.endswith("::eq") else 1 - same
+        if name in ("std::option::Option::<T>::is_some", "std::option::Option::<T>::is_none"):
+            for a in t[2][0]:
+                if a[0] == "view" and param_of(a[2]) and a[1] in VIEW_KIND:
+                    v = int(VIEW_KIND[a[1]] == kinds[param_of(a[2])])
+                    return v if name.endswith("is_some") else 1 - v
+                if a[0] == "call" and a[1] == "serde_json::Number::as_f64":
+                    return 1 if name.endswith("is_some") else 0
+            return None
+        if name.startswith(V) and name[len(V):] in IS and len(t[2]) == 1:
+            ps = {param_of(y) for y in t[2][0]}
+            if len(ps) == 1 and None not in ps:
+                return int(IS[name[len(V):]] == kinds[next(iter(ps))])
+        return None
+
+    return Walker(body, Origins(body, lib), atom=atom, call=call)
+
+
+def is_payload(t, param, kind):
+    """t denotes the payload of `param` (1 or 2) as a value of `kind`: the variant field itself, the accessor's answer,
+    Some(..) of either — for numbers also their f64 value."""
+    from .analysis import strip_through
+    t = strip_through(t)
+    if t[0] == "agg" and t[1] == "std::option::Option::Some" and len(t[2]) == 1 and t[2][0]:
+        return all(is_payload(x, param, kind) for x in t[2][0])
+    if t == ("field", ("param", param), f"{kind}.0"):
+        return True
+    if t == ("view", KIND_VIEW.get(kind), ("param", param)):
+        return True
+    if kind == "Number" and t[0] == "call" and t[1] == "serde_json::Number::as_f64" and len(t[2]) == 1 and t[2][0] and \
+            all(x == ("field", ("param", param), "Number.0") for x in t[2][0]):
+        return True
+    return False
